@@ -45,9 +45,10 @@ class Amt:
 
 
 class Post:
-    def __init__(self, acct, kind='R', amt=None, cost=None, lot=None):
+    def __init__(self, acct, kind='R', amt=None, cost=None, lot=None, vcost=False):
         # kind: R real, V (virtual), B [balanced virtual]; cost: ('u'|'t', Amt); lot: Amt per-unit price
-        self.acct, self.kind, self.amt, self.cost, self.lot = acct, kind, amt, cost, lot
+        # vcost: the cost is written (@) / (@@) - a "virtual cost", which enters no price history but balances like any cost
+        self.acct, self.kind, self.amt, self.cost, self.lot, self.vcost = acct, kind, amt, cost, lot, vcost
 
     def must_balance(self):
         return self.kind != 'V'
@@ -68,7 +69,8 @@ class Post:
         if self.lot is not None:
             s += ' {%s}' % self.lot.text()
         if self.cost is not None:
-            s += (' @ ' if self.cost[0] == 'u' else ' @@ ') + self.cost[1].text()
+            op = '@' if self.cost[0] == 'u' else '@@'
+            s += ' %s ' % (('(%s)' % op) if getattr(self, 'vcost', False) else op) + self.cost[1].text()
         return '    %s    %s' % (a, s)
 
     def sx(self):
@@ -277,7 +279,13 @@ def gen_balanced(rng, ncomm=None, with_costs=True, with_virtual=True):
             posts.append(Post(acct_of(rng, kd), kd, Amt(v, dec, s)))
     if with_virtual and rng.random() < 0.25:
         s = rng.choice(list(COMMS))
-        posts.append(Post(acct_of(rng, 'V'), 'V', Amt.rand(rng, s)))
+        vp = Post(acct_of(rng, 'V'), 'V', Amt.rand(rng, s))
+        if with_costs and rng.random() < 0.4:
+            # a cost on a posting that does not balance: of no consequence for the transaction, (@) or @ alike
+            y = rng.choice([c for c in COMMS if c != s])
+            vp.cost = (rng.choice(['u', 't']), Amt(F(rng.randrange(1, 9999), 100), 2, y))
+            vp.vcost = rng.random() < 0.6
+        posts.append(vp)
     if with_costs and rng.random() < 0.35:
         # a purchase: N units of X at a cost in Y, paid exactly
         x, y = rng.sample(list(COMMS), 2)
@@ -295,7 +303,7 @@ def gen_balanced(rng, ncomm=None, with_costs=True, with_virtual=True):
             cost = ('t', price)
             total = price.value if units.value > 0 else -price.value
             tdec = dec
-        posts.append(Post(acct_of(rng, 'R'), 'R', units, cost))
+        posts.append(Post(acct_of(rng, 'R'), 'R', units, cost, vcost=rng.random() < 0.2))
         posts.append(Post(acct_of(rng, 'R'), 'R', Amt(-total, tdec, y)))
     rng.shuffle(posts)
     return Xact(posts)
